@@ -44,6 +44,15 @@ type world struct {
 	useSrv bool
 	cancel context.CancelFunc // of the bare cluster
 	conf   uint64             // region conf-version counter
+
+	// gated schedule: op 1 parked at its first store write, op 2 possibly blocked behind it
+	gated    bool
+	pend1    chan string
+	pend2    chan string
+	gid1     int64
+	release  func()
+	parked2  <-chan struct{}
+	release2 func()
 }
 
 func relevant(key string) bool {
@@ -319,6 +328,114 @@ func (w *world) reset(f []string) string {
 	return "ok"
 }
 
+const blockedAfter = 200 * time.Millisecond
+
+// drain ends a gated schedule (used by reset).
+func (w *world) drain() {
+	if w.release != nil {
+		w.release()
+	}
+	if w.pend1 != nil {
+		<-w.pend1
+	}
+	if w.release2 != nil {
+		w.release2()
+	}
+	if w.pend2 != nil {
+		select {
+		case <-w.pend2:
+		case <-w.parked2:
+			w.release2()
+			<-w.pend2
+		}
+	}
+	w.fkv.Disarm()
+	w.gated, w.pend1, w.pend2, w.release, w.release2, w.parked2 = false, nil, nil, nil, nil, nil
+}
+
+// sched runs the lines of a gated schedule:
+//   park <op>   start <op>; its first store write parks (after it is logged, before it takes effect) -> "parked";
+//               an op that issues no store write simply completes
+//   <op>        while an op is parked: started in a second goroutine; "blocked" if it has not returned after
+//               200 ms (it waits for the cluster lock), otherwise its result
+//   release     lets the parked write go on; answers "<res1>", "<res1> <res2>" or - when the second op reaches a
+//               store write of its own - "<res1> parked"; a further release then answers "<res2>"
+// During a schedule the write log is cumulative and masks are ignored (must be 0).
+func (w *world) sched(op string) (string, bool) {
+	f := strings.Fields(op)
+	switch {
+	case len(f) > 1 && f[0] == "park":
+		if w.gated || w.rc == nil {
+			return "bad-op", true
+		}
+		w.fkv.Arm(0)
+		parked, rel := w.fkv.ArmPark(0)
+		done := make(chan string, 1)
+		gid := make(chan int64, 1)
+		w.gated = true
+		go func() {
+			gid <- storecfg.GoID()
+			done <- w.exec(strings.Join(f[1:], " "))
+		}()
+		w.gid1 = <-gid
+		select {
+		case <-parked:
+			w.pend1, w.release = done, rel
+			return "parked", true
+		case r := <-done:
+			w.fkv.Disarm()
+			w.gated = false
+			return r, true
+		case <-time.After(30 * time.Second):
+			panic("park: neither parked nor done")
+		}
+	case len(f) == 1 && f[0] == "release":
+		switch {
+		case w.pend1 != nil:
+			if w.pend2 != nil {
+				w.parked2, w.release2 = w.fkv.ArmPark(w.gid1)
+			}
+			w.release()
+			r1 := <-w.pend1
+			w.pend1, w.release = nil, nil
+			if w.pend2 == nil {
+				w.gated = false
+				return r1, true
+			}
+			select {
+			case r2 := <-w.pend2:
+				w.fkv.Disarm()
+				w.pend2, w.release2, w.parked2, w.gated = nil, nil, nil, false
+				return r1 + " " + r2, true
+			case <-w.parked2:
+				return r1 + " parked", true
+			case <-time.After(30 * time.Second):
+				panic("release: second op neither parked nor done")
+			}
+		case w.pend2 != nil:
+			w.release2()
+			r2 := <-w.pend2
+			w.pend2, w.release2, w.parked2, w.gated = nil, nil, nil, false
+			return r2, true
+		}
+		return "bad-op", true
+	case w.gated && len(f) > 0 && f[0] != "reset":
+		if w.pend2 != nil || w.pend1 == nil {
+			return "bad-op", true
+		}
+		done := make(chan string, 1)
+		go func() { done <- w.exec(op) }()
+		select {
+		case r := <-done:
+			return r, true
+		case <-time.After(blockedAfter):
+			w.pend2 = done
+			return "blocked", true
+		}
+	}
+	return "", false
+}
+
 // exec runs one op; a panic of the code under test is an observation ("panic"), not a harness crash.
 func (w *world) exec(op string) (res string) {
 	defer func() {
@@ -342,8 +459,14 @@ func (w *world) exec1(op string) string {
 	if w.rc == nil {
 		return bad
 	}
-	arm := func(s string) { w.fkv.Arm(u64(s)) }
-	w.fkv.Arm(0)
+	arm := func(s string) {
+		if !w.gated {
+			w.fkv.Arm(u64(s))
+		}
+	}
+	if !w.gated {
+		w.fkv.Arm(0)
+	}
 	switch {
 	case (f[0] == "put" || f[0] == "gput") && len(f) == 9:
 		// put id addr ver start labels state destroyed mask
@@ -434,22 +557,32 @@ func (w *world) exec1(op string) string {
 	return bad
 }
 
-func (w *world) run(t *trace.W, op string) {
+func (w *world) run(t *trace.W, op string) string {
 	if w.useSrv && w.srv != nil {
 		w.srv.MustLead()
 	}
-	res := w.exec(op)
+	if strings.HasPrefix(op, "reset") && w.gated {
+		w.drain()
+	}
+	res, handled := w.sched(op)
+	if !handled {
+		res = w.exec(op)
+	}
 	if w.useSrv && w.srv != nil {
 		w.srv.MustLead()
 	}
 	if res == "bad-op" || w.rc == nil {
 		t.Line(op, res)
-		return
+		return res
 	}
 	t.Line(op, res+" ; "+w.dump())
+	return res
 }
 
 func (w *world) close() {
+	if w.gated {
+		w.drain()
+	}
 	if w.cancel != nil {
 		w.cancel()
 	}
@@ -463,6 +596,7 @@ func main() {
 	replay := flag.String("replay", "", "ops file to replay instead of generating")
 	n := flag.Int("n", 100, "number of generated sequences on the bare cluster")
 	nsrv := flag.Int("nsrv", 10, "number of generated sequences on the in-process server")
+	ngate := flag.Int("ngate", 0, "number of generated sequences with gated two-operation schedules")
 	maxOps := flag.Int("len", 60, "max ops per sequence")
 	stream := flag.Uint64("stream", 0, "PRNG stream")
 	flag.Parse()
@@ -480,6 +614,9 @@ func main() {
 	r := rng.FromEnv(*stream)
 	for s := 0; s < *n; s++ {
 		gen(w, t, r, *maxOps, false)
+	}
+	for s := 0; s < *ngate; s++ {
+		genGated(w, t, r, s%6 == 5)
 	}
 	for s := 0; s < *nsrv; s++ {
 		gen(w, t, r, *maxOps, true)
